@@ -67,8 +67,62 @@ def prog_text(outcome, tp, ta, explicit, imp=0):
     return '\n'.join(lines) + '\n'
 
 
+SPECIALS = ['rebind_path', 'rebind_argv', 'rebind_both', 'threads']
+
+
+def special_name(kind, outcome, explicit=0):
+    return 'special_%s_%s_%d' % (kind, outcome, explicit)
+
+
+def special_text(kind, outcome, explicit=0):
+    """programs that REBIND sys.path / sys.argv after touching them in place, and a well-behaved threaded program whose
+    profiled calls overlap across threads (a call in the main thread ends while a later one in a worker still runs)"""
+    lines = ['import sys']
+    lines += ['from line_profiler import profile'] if explicit else ['try:', '    profile', 'except NameError:', '    def profile(f):', '        return f']
+    if kind in ('rebind_path', 'rebind_both'):
+        lines += ["sys.path.append('/prog-added')", "sys.path = sys.path + ['/prog-rebound']"]
+    if kind in ('rebind_argv', 'rebind_both'):
+        lines += ["sys.argv.append('prog-added')", "sys.argv = sys.argv + ['prog-rebound']"]
+    if kind == 'threads':
+        lines += ['import threading', '_in_b = threading.Event()', '_go = threading.Event()',
+                  '@profile', 'def b_work():', '    _in_b.set()', '    _go.wait(10)', '    return 1',
+                  '@profile', 'def a_work():', '    t = threading.Thread(target=b_work)', '    t.start()', '    _in_b.wait(10)', '    return t',
+                  '_t = a_work()', '_go.set()', '_t.join()']
+    lines += ['@profile', 'def work(n):', '    return sum(range(n))', 'work(5)']
+    lines += dict(ret=[], exit=['sys.exit(3)'], exc=["raise ValueError('boom')"])[outcome]
+    return '\n'.join(lines) + '\n'
+
+
+SETUP_USE_SETS = [['enable'], ['enable', 'decorate'], ['decorate'], ['disable'], ['enable', 'disable', 'decorate'], ['decorate', 'enable']]
+
+
+def setup_file(uses):
+    return 'setupd/setup%s.py' % ''.join('_' + u[:3] for u in uses or [])
+
+
+def setup_text(uses):
+    lines = ['SETUP_RAN = 1']
+    if uses:
+        lines += ['import line_profiler']
+    for k, u in enumerate(uses or []):
+        if u == 'enable':
+            lines += ['line_profiler.profile.enable()']
+        elif u == 'disable':
+            lines += ['line_profiler.profile.disable()']
+        else:
+            lines += ['def _helper%d(x):' % k, '    return x + 1', '_helper%d = line_profiler.profile(_helper%d)' % (k, k), '_helper%d(1)' % k]
+    return '\n'.join(lines) + '\n'
+
+
 def all_files():
     files = {'setupd/setup.py': 'SETUP_RAN = 1\n', 'helper_mod.py': 'def helper(n):\n    return sum(range(n))\n'}
+    for uses in SETUP_USE_SETS:
+        files[setup_file(uses)] = setup_text(uses)
+    for kind in SPECIALS:
+        for outcome in ('ret', 'exit', 'exc'):
+            for ex in (0, 1):
+                files[special_name(kind, outcome, ex) + '.py'] = special_text(kind, outcome, ex)
+                files['sub/' + special_name(kind, outcome, ex) + '.py'] = special_text(kind, outcome, ex)
     for outcome in OUTCOMES:
         for tp, ta, ex, imp in itertools.product((0, 1), repeat=4):
             nm = prog_name(outcome, tp, ta, ex, imp) + '.py'
@@ -81,20 +135,30 @@ def all_files():
 SELECTIONS = ['json', 'helper', 'both', 'script', 'nosuch']
 
 
-def make_run(l, b, m, setup, interval, where, extras, sargs, outcome, tp, ta, explicit, imp=0, sel=None):
+def make_run(l, b, m, setup, interval, where, extras, sargs, outcome, tp, ta, explicit, imp=0, sel=None, setup_uses=None, special=None):
     """sel: what -p selects (needs -l): an imported module, an imported function's module, both, the script itself
     (with --prof-imports: every import of the script is registered) or nothing that the program imports"""
     if sel == 'script':
         explicit = 0    # --prof-imports on a program doing `from line_profiler import profile` dies with AttributeError
                         # (the registration statements then call the GlobalProfiler): auto-profiling's business, C08/C09
     name = prog_name(outcome, tp, ta, explicit, imp)
+    rp = ra = False
+    if special:
+        if outcome not in ('ret', 'exit', 'exc'):
+            outcome = 'exc'
+        imp, sel = 0, None
+        name = special_name(special, outcome, explicit)
+        rp, ra = special in ('rebind_path', 'rebind_both'), special in ('rebind_argv', 'rebind_both')
+        tp, ta = int(rp), int(ra)
     args = []
     if l:
         args.append('-l')
     if b:
         args.append('-b')
+    if setup_uses:
+        setup = True
     if setup:
-        args += ['-s', 'setupd/setup.py']
+        args += ['-s', setup_file(setup_uses)]
     if interval is not None:
         args += ['-i', str(interval)]
     args += extras
@@ -117,7 +181,8 @@ def make_run(l, b, m, setup, interval, where, extras, sargs, outcome, tp, ta, ex
     args += sargs
     return dict(args=args, l=l, b=b, m=m, setup='setupd' if setup else None, interval=interval or 0,
                 new_argv=[script.replace('{TMP}', '/T')] + sargs, script_dir=sdir,
-                outcome=outcome, tp=bool(tp), ta=bool(ta), explicit=bool(explicit), imp=int(imp), sel=sel, regs=regs)
+                outcome=outcome, tp=bool(tp), ta=bool(ta), explicit=bool(explicit), imp=int(imp), sel=sel, regs=regs,
+                setup_uses=list(setup_uses or []), plain=not (l or b), special=special, rp=rp, ra=ra)
 
 
 EXTRAS = [[], ['-v'], ['-z'], ['-v', '-z', '-u', '1e-3'], ['-o', 'out.dat'], ['-v', '-r']]
@@ -161,6 +226,21 @@ def gen_cases(tier, rnd):
             r1 = make_run(True, False, False, False, None, 'rel', [], [], 'ret', 0, 0, 0, imp=1, sel='helper')
             r2 = make_run(l2, b2, False, False, None, 'sub', [], [], 'ret', 1, 1, 0, imp=1, sel=sel2)
             cases.append(dict(kind='autoprofile', init=init0, runs=[r1, r2]))
+    # 1d. programs that rebind sys.path / sys.argv, and threaded programs with overlapping profiled calls (-l only:
+    #     ContextualProfile's count is shared between threads, C05), every mode x outcome x script / module
+    for special in SPECIALS:
+        for l, b in (((True, False), (False, True), (False, False)) if special != 'threads' else ((True, False), (True, True))):
+            for outcome in ('ret', 'exit', 'exc'):
+                for m in (False, True):
+                    r = make_run(l, b, m, rnd.random() < 0.3, None, rnd.choice(['rel', 'sub']), [], ['a'], outcome, 0, 0,
+                                 int((l or b) and rnd.random() < 0.3), special=special)
+                    cases.append(dict(kind='special-program', init=init0, runs=[r]))
+    for _ in range(200 if thorough else 12):     # ... and inside sequences
+        rs = [random_run(rnd, allow_p=False) for _ in range(rnd.choice([1, 2]))]
+        l = rnd.random() < 0.7
+        rs.insert(rnd.randrange(len(rs) + 1), make_run(l, False, rnd.random() < 0.3, False, None, 'rel', [], [], rnd.choice(['ret', 'exit', 'exc']),
+                                                        0, 0, 0, special=rnd.choice(SPECIALS if l else SPECIALS[:3])))
+        cases.append(dict(kind='special-program', init=init0, runs=rs))
     # 2. program behaviours and irrelevant options, single run
     for _ in range(1500 if thorough else 60):
         init = dict(init0, argv=rnd.choice([['driver'], ['driver', 'x', 'y'], ['']]),
@@ -327,6 +407,8 @@ def current_path_prediction(case, o):
 def classify(case, o, bit):
     """the finding id iff the failing clause matches that finding's signature exactly"""
     final, last = o['seen'][-1], case['runs'][-1]
+    if last.get('special'):
+        return None         # none of the repaired defects involved such programs
     if bit == 1:
         want = last['new_argv'] + (['prog-added'] if last['ta'] else [])
         if final['argv'] == want and not final['argv_same'] and not final['argv_cap']:
@@ -390,11 +472,13 @@ def q_gp(init):
 
 
 def q_run(r):
-    return '(mkOpts %s %s %s %s %s %s %s "/T") (mkProg %s %s %s %s %s [])' % (
+    return '(mkOpts %s %s %s %s %s %s %s %s "/T") (mkProg %s %s %s %s %s %s %s [])' % (
         core.coq_bool(r['l']), core.coq_bool(r['b']), core.coq_bool(r['m']),
-        core.coq_opt(core.coq_str(r['setup']) if r['setup'] else None), core.coq_z(r['interval']),
+        core.coq_opt(core.coq_str(r['setup']) if r['setup'] else None),
+        core.coq_list([COQ_UOP[u] for u in r.get('setup_uses') or []]), core.coq_z(r['interval']),
         q_strs(r['new_argv']), core.coq_str(r['script_dir']),
-        COQ_OUTCOME[r['outcome']], core.coq_bool(r['tp']), core.coq_bool(r['ta']), core.coq_bool(not r['explicit']), core.coq_z(r.get('regs', 0)))
+        COQ_OUTCOME[r['outcome']], core.coq_bool(r['tp']), core.coq_bool(r['ta']), core.coq_bool(r.get('rp', False)), core.coq_bool(r.get('ra', False)),
+        core.coq_bool(not r['explicit']), core.coq_z(r.get('regs', 0)))
     # p_sched = []: in these runs the program ends long before the first expiry (N >= 2 s); the
     # interleavings of stop() with a dump are exercised on the RepeatedTimer directly (RT_SCHEDULES)
 
@@ -406,7 +490,8 @@ def q_seen(s, base_threads):
         core.coq_z(s['threads'] - base_threads), core.coq_bool(s['tracing']))
 
 
-COQ_USE = dict(enable='AEnable', disable='ADisable', decorate='ADecorate')
+COQ_USE = dict(enable='AUse UEnable', disable='AUse UDisable', decorate='AUse UDecorate')
+COQ_UOP = dict(enable='UEnable', disable='UDisable', decorate='UDecorate')
 
 
 def q_case(case, o):
@@ -435,7 +520,8 @@ Definition c19_case (s : St) (acts : list act) (before : seen) (os : list (seen 
 
 def run_driver(impl, cases, tmp, rt=()):
     payload = dict(tmp=str(tmp), files=all_files(), rt=list(rt),
-                   cases=[dict(init=c['init'], runs=[dict(args=[a.replace('{TMP}', str(tmp)) for a in r['args']], pre_use=r.get('pre_use', []))
+                   cases=[dict(init=c['init'], runs=[dict(args=[a.replace('{TMP}', str(tmp)) for a in r['args']], pre_use=r.get('pre_use', []), setup_uses=r.get('setup_uses', []),
+                                                          plain=r.get('plain', False))
                                                      for r in c['runs']])
                           for c in cases])
     out = core.run_impl(impl, DRIVER, payload, timeout=1500, cwd=str(tmp))
@@ -588,7 +674,7 @@ def run(tier, seed):
                  '(-l, -b, -m, -s, -i N) x 5 program outcomes (return, sys.exit, KeyboardInterrupt, raise at top level, raise inside a '
                  'profiled function) as single runs, all ordered pairs of 6 core behaviours, plus seeded random runs / sequences of 2-3 runs '
                  'with irrelevant options (-v -z -r -u -o), all kinds of -p selections with and without matching imports (and --prof-imports), program edits of sys.path / sys.argv, script given relative / in a '
-                 'subdirectory / absolute, decided and undecided initial decorator; plus the real kernprof.RepeatedTimer driven through '
+                 'subdirectory / absolute, programs that rebind sys.path / sys.argv, threaded programs whose profiled calls overlap across threads, decided and undecided initial decorator; plus the real kernprof.RepeatedTimer driven through '
                  'deterministic schedules of expiry / dump completion / stop() (a blocking dump function places stop() inside a dump)',
             exhaustive=True, case_kinds=kinds, runs_per_case=lens, run_stats=stats, outcomes=outcomes,
             clause_failure_bits_histogram={str(k): v for k, v in sorted(bit_hist.items())},
